@@ -1,5 +1,5 @@
 // auto-generated: "lalrpop 0.23.1"
-// sha3: e7de9d982fa9f6f60ce654d1d163088d5cdcc306665c848865cb3db8170ada3f
+// sha3: 2821a0831a40e5d88681bb9f01dc93c7a631100d14bdb085a907daf24d63f528
 #[allow(unused_extern_crates)]
 extern crate lalrpop_util as __lalrpop_util;
 #[allow(unused_imports)]
@@ -9,7 +9,7 @@ extern crate alloc;
 
 #[rustfmt::skip]
 #[allow(explicit_outlives_requirements, non_snake_case, non_camel_case_types, unused_mut, unused_variables, unused_imports, unused_parens, clippy::needless_lifetimes, clippy::type_complexity, clippy::needless_return, clippy::too_many_arguments, clippy::match_single_binding, clippy::clone_on_copy, clippy::unit_arg)]
-mod __parse__P {
+mod __parse__S {
 
     #[allow(unused_extern_crates)]
     extern crate lalrpop_util as __lalrpop_util;
@@ -22,102 +22,71 @@ mod __parse__P {
     pub(crate) enum __Symbol<'input>
      {
         Variant0(&'input str),
-        Variant1(i64),
+        Variant1(String),
     }
     const __ACTION: &[i8] = &[
         // State 0
-        9, 10, 2, 0, 0, 0, 0,
+        3, 4, 5, 6, 7, 8, 9, 10,
         // State 1
-        9, 10, 2, 0, 0, 0, 0,
+        0, 0, 0, 0, 0, 0, 0, 0,
         // State 2
-        9, 10, 2, 0, 0, 0, 0,
+        0, 0, 0, 0, 0, 0, 0, 0,
         // State 3
-        9, 10, 2, 0, 0, 0, 0,
+        0, 0, 0, 0, 0, 0, 0, 0,
         // State 4
-        9, 10, 2, 0, 0, 0, 0,
+        0, 0, 0, 0, 0, 0, 0, 0,
         // State 5
-        0, 0, 0, -8, -8, -8, -8,
+        0, 0, 0, 0, 0, 0, 0, 0,
         // State 6
-        0, 0, 0, 0, 0, 3, 4,
+        0, 0, 0, 0, 0, 0, 0, 0,
         // State 7
-        0, 0, 0, -6, 5, -6, -6,
+        0, 0, 0, 0, 0, 0, 0, 0,
         // State 8
-        0, 0, 0, -1, -1, -1, -1,
+        0, 0, 0, 0, 0, 0, 0, 0,
         // State 9
-        0, 0, 0, -3, -3, -3, -3,
-        // State 10
-        0, 0, 0, 15, 0, 3, 4,
-        // State 11
-        0, 0, 0, -4, 5, -4, -4,
-        // State 12
-        0, 0, 0, -5, 5, -5, -5,
-        // State 13
-        0, 0, 0, -7, -7, -7, -7,
-        // State 14
-        0, 0, 0, -2, -2, -2, -2,
+        0, 0, 0, 0, 0, 0, 0, 0,
     ];
     fn __action(state: i8, integer: usize) -> i8 {
-        __ACTION[(state as usize) * 7 + integer]
+        __ACTION[(state as usize) * 8 + integer]
     }
     const __EOF_ACTION: &[i8] = &[
         // State 0
         0,
         // State 1
-        0,
-        // State 2
-        0,
-        // State 3
-        0,
-        // State 4
-        0,
-        // State 5
-        -8,
-        // State 6
         -9,
+        // State 2
+        -1,
+        // State 3
+        -2,
+        // State 4
+        -3,
+        // State 5
+        -4,
+        // State 6
+        -5,
         // State 7
         -6,
         // State 8
-        -1,
-        // State 9
-        -3,
-        // State 10
-        0,
-        // State 11
-        -4,
-        // State 12
-        -5,
-        // State 13
         -7,
-        // State 14
-        -2,
+        // State 9
+        -8,
     ];
     fn __goto(state: i8, nt: usize) -> i8 {
         match nt {
-            0 => match state {
-                4 => 13,
-                _ => 5,
-            },
-            1 => match state {
-                1 => 10,
-                _ => 6,
-            },
-            2 => match state {
-                2 => 11,
-                3 => 12,
-                _ => 7,
-            },
+            0 => 1,
             _ => 0,
         }
     }
     #[allow(clippy::needless_raw_string_hashes)]
     const __TERMINAL: &[&str] = &[
-        r###"r#"[0-9]+"#"###,
-        r###"r#"\\p{Greek}+"#"###,
-        r###""(""###,
-        r###"")""###,
-        r###""*""###,
-        r###""+""###,
-        r###""-""###,
+        r###""k0""###,
+        r###""k1""###,
+        r###""k2""###,
+        r###""k3""###,
+        r###""k4""###,
+        r###""k5""###,
+        r###""k6""###,
+        r###""k7""###,
     ];
     fn __expected_tokens(__state: i8) -> alloc::vec::Vec<alloc::string::String> {
         __TERMINAL.iter().enumerate().filter_map(|(index, terminal)| {
@@ -158,7 +127,7 @@ mod __parse__P {
         type Token = Token<'input>;
         type TokenIndex = usize;
         type Symbol = __Symbol<'input>;
-        type Success = i64;
+        type Success = String;
         type StateIndex = i8;
         type Action = i8;
         type ReduceIndex = i8;
@@ -186,7 +155,7 @@ mod __parse__P {
 
         #[inline]
         fn error_action(&self, state: i8) -> i8 {
-            __action(state, 7 - 1)
+            __action(state, 8 - 1)
         }
 
         #[inline]
@@ -261,6 +230,7 @@ mod __parse__P {
             Token(4, _) if true => Some(4),
             Token(5, _) if true => Some(5),
             Token(6, _) if true => Some(6),
+            Token(7, _) if true => Some(7),
             _ => None,
         }
     }
@@ -273,8 +243,8 @@ mod __parse__P {
     ) -> __Symbol<'input>
     {
         #[allow(clippy::manual_range_patterns)]match __token_index {
-            0 | 1 | 2 | 3 | 4 | 5 | 6 => match __token {
-                Token(0, __tok0) | Token(1, __tok0) | Token(2, __tok0) | Token(3, __tok0) | Token(4, __tok0) | Token(5, __tok0) | Token(6, __tok0) if true => __Symbol::Variant0(__tok0),
+            0 | 1 | 2 | 3 | 4 | 5 | 6 | 7 => match __token {
+                Token(0, __tok0) | Token(1, __tok0) | Token(2, __tok0) | Token(3, __tok0) | Token(4, __tok0) | Token(5, __tok0) | Token(6, __tok0) | Token(7, __tok0) if true => __Symbol::Variant0(__tok0),
                 _ => unreachable!(),
             },
             _ => unreachable!(),
@@ -296,7 +266,7 @@ mod __parse__P {
             }
             1 => {
                 __state_machine::SimulatedReduce::Reduce {
-                    states_to_pop: 3,
+                    states_to_pop: 1,
                     nonterminal_produced: 0,
                 }
             }
@@ -308,48 +278,48 @@ mod __parse__P {
             }
             3 => {
                 __state_machine::SimulatedReduce::Reduce {
-                    states_to_pop: 3,
-                    nonterminal_produced: 1,
+                    states_to_pop: 1,
+                    nonterminal_produced: 0,
                 }
             }
             4 => {
                 __state_machine::SimulatedReduce::Reduce {
-                    states_to_pop: 3,
-                    nonterminal_produced: 1,
+                    states_to_pop: 1,
+                    nonterminal_produced: 0,
                 }
             }
             5 => {
                 __state_machine::SimulatedReduce::Reduce {
                     states_to_pop: 1,
-                    nonterminal_produced: 1,
+                    nonterminal_produced: 0,
                 }
             }
             6 => {
                 __state_machine::SimulatedReduce::Reduce {
-                    states_to_pop: 3,
-                    nonterminal_produced: 2,
+                    states_to_pop: 1,
+                    nonterminal_produced: 0,
                 }
             }
             7 => {
                 __state_machine::SimulatedReduce::Reduce {
                     states_to_pop: 1,
-                    nonterminal_produced: 2,
+                    nonterminal_produced: 0,
                 }
             }
             8 => __state_machine::SimulatedReduce::Accept,
             _ => panic!("invalid reduction index {__reduce_index}")
         }
     }
-    pub struct PParser {
+    pub struct SParser {
         builder: __lalrpop_util::lexer::MatcherBuilder,
         _priv: (),
     }
 
-    impl Default for PParser { fn default() -> Self { Self::new() } }
-    impl PParser {
-        pub fn new() -> PParser {
+    impl Default for SParser { fn default() -> Self { Self::new() } }
+    impl SParser {
+        pub fn new() -> SParser {
             let __builder = super::__intern_token::new_builder();
-            PParser {
+            SParser {
                 builder: __builder,
                 _priv: (),
             }
@@ -361,7 +331,7 @@ mod __parse__P {
         >(
             &self,
             input: &'input str,
-        ) -> Result<i64, __lalrpop_util::ParseError<usize, Token<'input>, &'static str>>
+        ) -> Result<String, __lalrpop_util::ParseError<usize, Token<'input>, &'static str>>
         {
             let mut __tokens = self.builder.matcher(input);
             __state_machine::Parser::drive(
@@ -415,7 +385,7 @@ mod __parse__P {
         __states: &mut alloc::vec::Vec<i8>,
         __symbols: &mut alloc::vec::Vec<(usize,__Symbol<'input>,usize)>,
         _: core::marker::PhantomData<(&'input ())>,
-    ) -> Option<Result<i64,__lalrpop_util::ParseError<usize, Token<'input>, &'static str>>>
+    ) -> Option<Result<String,__lalrpop_util::ParseError<usize, Token<'input>, &'static str>>>
     {
         let (__pop_states, __nonterminal) = match __action {
             0 => {
@@ -443,7 +413,7 @@ mod __parse__P {
                 __reduce7(input, __lookahead_start, __symbols, core::marker::PhantomData::<(&())>)
             }
             8 => {
-                // __P = P => ActionFn(0);
+                // __S = S => ActionFn(0);
                 let __sym0 = __pop_Variant1(__symbols);
                 let __start = __sym0.0.clone();
                 let __end = __sym0.2.clone();
@@ -467,7 +437,7 @@ mod __parse__P {
       'input,
     >(
         __symbols: &mut alloc::vec::Vec<(usize,__Symbol<'input>,usize)>
-    ) -> (usize, i64, usize)
+    ) -> (usize, String, usize)
      {
         match __symbols.pop() {
             Some((__l, __Symbol::Variant1(__v), __r)) => (__l, __v, __r),
@@ -494,11 +464,11 @@ mod __parse__P {
         _: core::marker::PhantomData<(&'input ())>,
     ) -> (usize, usize)
     {
-        // F = r#"[0-9]+"# => ActionFn(6);
+        // S = "k0" => ActionFn(1);
         let __sym0 = __pop_Variant0(__symbols);
         let __start = __sym0.0.clone();
         let __end = __sym0.2.clone();
-        let __nt = super::__action6::<>(input, __sym0);
+        let __nt = super::__action1::<>(input, __sym0);
         __symbols.push((__start, __Symbol::Variant1(__nt), __end));
         (1, 0)
     }
@@ -511,16 +481,13 @@ mod __parse__P {
         _: core::marker::PhantomData<(&'input ())>,
     ) -> (usize, usize)
     {
-        // F = "(", P, ")" => ActionFn(7);
-        assert!(__symbols.len() >= 3);
-        let __sym2 = __pop_Variant0(__symbols);
-        let __sym1 = __pop_Variant1(__symbols);
+        // S = "k1" => ActionFn(2);
         let __sym0 = __pop_Variant0(__symbols);
         let __start = __sym0.0.clone();
-        let __end = __sym2.2.clone();
-        let __nt = super::__action7::<>(input, __sym0, __sym1, __sym2);
+        let __end = __sym0.2.clone();
+        let __nt = super::__action2::<>(input, __sym0);
         __symbols.push((__start, __Symbol::Variant1(__nt), __end));
-        (3, 0)
+        (1, 0)
     }
     fn __reduce2<
         'input,
@@ -531,11 +498,11 @@ mod __parse__P {
         _: core::marker::PhantomData<(&'input ())>,
     ) -> (usize, usize)
     {
-        // F = r#"\\p{Greek}+"# => ActionFn(8);
+        // S = "k2" => ActionFn(3);
         let __sym0 = __pop_Variant0(__symbols);
         let __start = __sym0.0.clone();
         let __end = __sym0.2.clone();
-        let __nt = super::__action8::<>(input, __sym0);
+        let __nt = super::__action3::<>(input, __sym0);
         __symbols.push((__start, __Symbol::Variant1(__nt), __end));
         (1, 0)
     }
@@ -548,16 +515,13 @@ mod __parse__P {
         _: core::marker::PhantomData<(&'input ())>,
     ) -> (usize, usize)
     {
-        // P = P, "+", T => ActionFn(1);
-        assert!(__symbols.len() >= 3);
-        let __sym2 = __pop_Variant1(__symbols);
-        let __sym1 = __pop_Variant0(__symbols);
-        let __sym0 = __pop_Variant1(__symbols);
+        // S = "k3" => ActionFn(4);
+        let __sym0 = __pop_Variant0(__symbols);
         let __start = __sym0.0.clone();
-        let __end = __sym2.2.clone();
-        let __nt = super::__action1::<>(input, __sym0, __sym1, __sym2);
+        let __end = __sym0.2.clone();
+        let __nt = super::__action4::<>(input, __sym0);
         __symbols.push((__start, __Symbol::Variant1(__nt), __end));
-        (3, 1)
+        (1, 0)
     }
     fn __reduce4<
         'input,
@@ -568,16 +532,13 @@ mod __parse__P {
         _: core::marker::PhantomData<(&'input ())>,
     ) -> (usize, usize)
     {
-        // P = P, "-", T => ActionFn(2);
-        assert!(__symbols.len() >= 3);
-        let __sym2 = __pop_Variant1(__symbols);
-        let __sym1 = __pop_Variant0(__symbols);
-        let __sym0 = __pop_Variant1(__symbols);
+        // S = "k4" => ActionFn(5);
+        let __sym0 = __pop_Variant0(__symbols);
         let __start = __sym0.0.clone();
-        let __end = __sym2.2.clone();
-        let __nt = super::__action2::<>(input, __sym0, __sym1, __sym2);
+        let __end = __sym0.2.clone();
+        let __nt = super::__action5::<>(input, __sym0);
         __symbols.push((__start, __Symbol::Variant1(__nt), __end));
-        (3, 1)
+        (1, 0)
     }
     fn __reduce5<
         'input,
@@ -588,13 +549,13 @@ mod __parse__P {
         _: core::marker::PhantomData<(&'input ())>,
     ) -> (usize, usize)
     {
-        // P = T => ActionFn(3);
-        let __sym0 = __pop_Variant1(__symbols);
+        // S = "k5" => ActionFn(6);
+        let __sym0 = __pop_Variant0(__symbols);
         let __start = __sym0.0.clone();
         let __end = __sym0.2.clone();
-        let __nt = super::__action3::<>(input, __sym0);
+        let __nt = super::__action6::<>(input, __sym0);
         __symbols.push((__start, __Symbol::Variant1(__nt), __end));
-        (1, 1)
+        (1, 0)
     }
     fn __reduce6<
         'input,
@@ -605,16 +566,13 @@ mod __parse__P {
         _: core::marker::PhantomData<(&'input ())>,
     ) -> (usize, usize)
     {
-        // T = T, "*", F => ActionFn(4);
-        assert!(__symbols.len() >= 3);
-        let __sym2 = __pop_Variant1(__symbols);
-        let __sym1 = __pop_Variant0(__symbols);
-        let __sym0 = __pop_Variant1(__symbols);
+        // S = "k6" => ActionFn(7);
+        let __sym0 = __pop_Variant0(__symbols);
         let __start = __sym0.0.clone();
-        let __end = __sym2.2.clone();
-        let __nt = super::__action4::<>(input, __sym0, __sym1, __sym2);
+        let __end = __sym0.2.clone();
+        let __nt = super::__action7::<>(input, __sym0);
         __symbols.push((__start, __Symbol::Variant1(__nt), __end));
-        (3, 2)
+        (1, 0)
     }
     fn __reduce7<
         'input,
@@ -625,17 +583,17 @@ mod __parse__P {
         _: core::marker::PhantomData<(&'input ())>,
     ) -> (usize, usize)
     {
-        // T = F => ActionFn(5);
-        let __sym0 = __pop_Variant1(__symbols);
+        // S = "k7" => ActionFn(8);
+        let __sym0 = __pop_Variant0(__symbols);
         let __start = __sym0.0.clone();
         let __end = __sym0.2.clone();
-        let __nt = super::__action5::<>(input, __sym0);
+        let __nt = super::__action8::<>(input, __sym0);
         __symbols.push((__start, __Symbol::Variant1(__nt), __end));
-        (1, 2)
+        (1, 0)
     }
 }
 #[allow(unused_imports)]
-pub use self::__parse__P::PParser;
+pub use self::__parse__S::SParser;
 #[rustfmt::skip]
 mod __intern_token {
     #![allow(unused_imports)]
@@ -647,13 +605,14 @@ mod __intern_token {
     extern crate alloc;
     pub fn new_builder() -> __lalrpop_util::lexer::MatcherBuilder {
         let __strs: &[(&str, bool)] = &[
-            ("[0-9]+", false),
-            ("[Ͱ-ͳ͵-ͷͺ-ͽͿ΄ΆΈ-ΊΌΎ-ΡΣ-ϡϰ-Ͽᴦ-ᴪᵝ-ᵡᵦ-ᵪᶿἀ-ἕἘ-Ἕἠ-ὅὈ-Ὅὐ-ὗὙὛὝὟ-ώᾀ-ᾴᾶ-ῄῆ-ΐῖ-Ί῝-`ῲ-ῴῶ-῾Ωꭥ𐅀-𐆎𐆠𝈀-𝉅]+", false),
-            ("\\(", false),
-            ("\\)", false),
-            ("\\*", false),
-            ("\\+", false),
-            ("\\-", false),
+            ("(?:k0)", false),
+            ("(?:k1)", false),
+            ("(?:k2)", false),
+            ("(?:k3)", false),
+            ("(?:k4)", false),
+            ("(?:k5)", false),
+            ("(?:k6)", false),
+            ("(?:k7)", false),
             (r"\s+", true),
         ];
         __lalrpop_util::lexer::MatcherBuilder::new(__strs.iter().copied()).unwrap()
@@ -667,8 +626,8 @@ fn __action0<
     'input,
 >(
     input: &'input str,
-    (_, __0, _): (usize, i64, usize),
-) -> i64
+    (_, __0, _): (usize, String, usize),
+) -> String
 {
     __0
 }
@@ -679,12 +638,10 @@ fn __action1<
     'input,
 >(
     input: &'input str,
-    (_, l, _): (usize, i64, usize),
-    (_, _, _): (usize, &'input str, usize),
-    (_, r, _): (usize, i64, usize),
-) -> i64
+    (_, __0, _): (usize, &'input str, usize),
+) -> String
 {
-    l + r
+    { fn f<'a>(x: &'a str) -> &'a str { x } f("q").to_string() }
 }
 
 #[allow(unused_variables)]
@@ -693,12 +650,10 @@ fn __action2<
     'input,
 >(
     input: &'input str,
-    (_, l, _): (usize, i64, usize),
-    (_, _, _): (usize, &'input str, usize),
-    (_, r, _): (usize, i64, usize),
-) -> i64
+    (_, __0, _): (usize, &'input str, usize),
+) -> String
 {
-    l - r
+    'r'.to_string()
 }
 
 #[allow(unused_variables)]
@@ -707,10 +662,10 @@ fn __action3<
     'input,
 >(
     input: &'input str,
-    (_, __0, _): (usize, i64, usize),
-) -> i64
+    (_, __0, _): (usize, &'input str, usize),
+) -> String
 {
-    __0
+    'é'.to_string()
 }
 
 #[allow(unused_variables)]
@@ -719,12 +674,10 @@ fn __action4<
     'input,
 >(
     input: &'input str,
-    (_, l, _): (usize, i64, usize),
-    (_, _, _): (usize, &'input str, usize),
-    (_, r, _): (usize, i64, usize),
-) -> i64
+    (_, __0, _): (usize, &'input str, usize),
+) -> String
 {
-    l * r
+    "} \n".to_string()
 }
 
 #[allow(unused_variables)]
@@ -733,10 +686,10 @@ fn __action5<
     'input,
 >(
     input: &'input str,
-    (_, __0, _): (usize, i64, usize),
-) -> i64
+    (_, __0, _): (usize, &'input str, usize),
+) -> String
 {
-    __0
+    '"'.to_string()
 }
 
 #[allow(unused_variables)]
@@ -746,9 +699,9 @@ fn __action6<
 >(
     input: &'input str,
     (_, __0, _): (usize, &'input str, usize),
-) -> i64
+) -> String
 {
-    __0.parse::<i64>().unwrap_or(-1)
+    b'}' as char.to_string()
 }
 
 #[allow(unused_variables)]
@@ -757,12 +710,11 @@ fn __action7<
     'input,
 >(
     input: &'input str,
-    (_, _, _): (usize, &'input str, usize),
-    (_, __0, _): (usize, i64, usize),
-    (_, _, _): (usize, &'input str, usize),
-) -> i64
+    (_, __0, _): (usize, &'input str, usize),
+) -> String
 {
-    __0
+    { /* } , ; */ let v = vec![(1, 2), (3, 4)]; // }
+ v[1].0.to_string() }
 }
 
 #[allow(unused_variables)]
@@ -771,10 +723,10 @@ fn __action8<
     'input,
 >(
     input: &'input str,
-    (_, v, _): (usize, &'input str, usize),
-) -> i64
+    (_, __0, _): (usize, &'input str, usize),
+) -> String
 {
-    v.chars().count() as i64
+    { fn f<'a>(x: &'a str) -> &'a str { x } f("q").to_string() }
 }
 
 #[allow(clippy::type_complexity, dead_code)]
